@@ -108,6 +108,16 @@ func init() {
 		Rule: "units = C02's own (objects with declared properties and additionalProperties true/{}/6 typed kinds x every subset of 4 extra keys incl. a Go field name, a case variant and the empty key; 5 string formats x required/optional/item; integers beyond 2^53 and nesting depth 3) plus the units of the C03, C04, C08, C09 families and seeded samples of C05-C07; every document that is valid under the reference semantics must be accepted, its reflective dump must hold every declared value in the field bound to that name (defaults for absent ones, exactly the undeclared keys in AdditionalProperties) and the re-marshalled JSON must reproduce every non-empty declared value. distinct_nontrivial = distinct (unit, document) pairs with a definite reference verdict"}
 }
 
+func init() {
+	families["C19"] = &rt.Family{Prop: "C19", Module: "MC_C02", PackSize: 1,
+		More: []rt.Extra{
+			{Module: "MC_C03", Frac: frac(0.5, 1)}, {Module: "MC_C04", Frac: frac(0.25, 1)}, {Module: "MC_C08", Frac: frac(0.1, 0.5)},
+			{Module: "MC_C09"}, {Module: "MC_C06", ExtraCfg: maxStr(1, 2), Frac: frac(0.2, 1)},
+			{Module: "MC_C07", ExtraCfg: tierCfg, Frac: frac(0.08, 0.5)}, {Module: "MC_C05", Frac: frac(0.005, 0.05)},
+		},
+		Rule: "programs = units of the C02-C09 families generated with --extra-imports; calls = for every document of every unit: UnmarshalJSON called directly and UnmarshalYAML via yaml.v3, each with a zero destination and with a destination previously decoded from a sibling document; plus malformed input for the first two documents (every prefix, trailing garbage, doubled document, invalid UTF-8, nesting depth 10001, lone tokens). distinct_nontrivial = calls that returned an error (the all-or-nothing clause is exercised)"}
+}
+
 func hasMult(u *rt.Unit) bool {
 	b := fmt.Sprint(u.Raw["schema"], u.Raw["defs"])
 	return containsStr(b, "multipleOf")
@@ -123,6 +133,9 @@ func containsStr(s, sub string) bool {
 }
 
 func Run(prop, tier string) int {
+	if prop == "C19" {
+		return rt.RunTotal(families[prop], tier)
+	}
 	if f, ok := families[prop]; ok {
 		return rt.RunFamily(f, tier)
 	}
